@@ -265,32 +265,29 @@ def coq_props(ctx, props_v):
     if gate:
         ok = False
         ctx.proof_failure = {"gate": gate}
-    # Print Assumptions output of the Props file
-    axioms = set()
+    # Print Assumptions output of the Props file.  An `Axioms:` block lists `name : type` entries (types may
+    # continue on indented lines); it ends at the next `Closed under...`, the next `Axioms:` or at the output
+    # of a `Check` of one of the project's own statements.
     closed = text.count("Closed under the global context")
-    for blk in re.finditer(r"Axioms:\n((?:.+\n?)+?)(?=\n|\Z|^[A-Z])", text, re.M):
-        pass
-    for m in re.finditer(r"^([A-Za-z_][A-Za-z0-9_.']*)\s*:", text, re.M):
-        nm = m.group(1)
-        if nm in ("File", "Warning", "Error", "make", "Axioms"):
-            continue
-        axioms.add(nm)
-    bad_ax = sorted(a for a in axioms if a not in AXIOM_ALLOW and a.split(".")[-1] not in AXIOM_ALLOW)
-    # lines of Check output also match name : type; keep only those printed after an 'Axioms:' header
+    own = set(names)
     ax_after = set()
     mode = False
     for line in text.splitlines():
         if line.startswith("Axioms:"):
             mode = True
             continue
-        if mode:
-            m = re.match(r"^([A-Za-z_][A-Za-z0-9_.']*)\s*$|^([A-Za-z_][A-Za-z0-9_.']*)\s*:", line)
-            if m:
-                ax_after.add(m.group(1) or m.group(2))
-            elif line.startswith(" "):
-                continue
-            else:
-                mode = False
+        if not mode:
+            continue
+        if line.startswith("Closed under") or line.startswith(("COQC", "COQDEP", "make")):
+            mode = False
+            continue
+        if line[:1] in (" ", "\t") or not line.strip():
+            continue
+        m = re.match(r"^([A-Za-z_][A-Za-z0-9_.']*)\s*(:|$)", line)
+        if not m or m.group(1) in own or m.group(1).split(".")[-1] in own:
+            mode = False
+            continue
+        ax_after.add(m.group(1))
     bad_ax = sorted(a for a in ax_after if a not in AXIOM_ALLOW and a.split(".")[-1] not in AXIOM_ALLOW)
     ctx.cov["print_assumptions"] = {"closed_under_global_context": closed, "axioms": sorted(ax_after)}
     if bad_ax:
